@@ -5,6 +5,9 @@ import json, subprocess
 HOOK_COMMITS = []  # filled in as hook commits are made in /repo
 
 CHECKS = {
+ "C10": dict(cat="exploration", technique="runtime reference-model monitor (left-outer-join evaluator) plus a reference-free metamorphic monitor (projection on the mandatory bindings == query without its OPTIONAL clauses) on generated statements run through the real pipeline",
+   text="Sampled: 2.5 k (quick) to 40 k (thorough) patterns with 1-3 OPTIONAL clauses after 1-2 mandatory ones over random sparse and dense data; sharing 0-2 bindings, fully specified, inapplicable extractions, clauses matching nothing.",
+   note="Trusted: Appendix A left-join semantics in bq.Solve; extraction bindings inside OPTIONAL clauses are fresh; cases with more than 1500 reference solutions are skipped and counted.", ref="DESIGN.md §5 C10"),
  "C08": dict(cat="exploration", technique="runtime process monitors around the real statement pipeline: journaling worker processes (crash attribution), recover(), goroutine-leak snapshots, all-blocked/hard watchdog, table-xor-error, race detector on a sample",
    text="Complete for token sequences up to length 2 (quick) / 3 (thorough) rendered to text; sampled generated statements of all eight kinds, their mutations, random bytes/UTF-8/keyword salad, against empty, populated and memoized stores.",
    note="Termination is bounded progress (watchdog); leak = goroutine created by badwolf code after the pre-call snapshot that is still alive (blocked) after the call returned.", ref="DESIGN.md §5 C08"),
